@@ -25,6 +25,33 @@ def make_cases(rng, tier, diff_here):
                     cases.append(base("ExecuteSelectedRulesWithControl", rules, b=b, names=names))
                 cases.append(base("ExecuteSelectedRules", rules, names=list(reversed([r["name"] for r in rules]))))
     cases.append(base("Execute", []))
+    # rule sets installed through HISTORIES of builder operations (full, incremental with moved saliences, removals incl. absent names)
+    ver = [500]
+
+    def R(name, sal, kind="ret"):
+        ver[0] += 1
+        return {"name": name, "sal": sal, "kind": kind, "stop": False, "ver": ver[0]}
+    hists = [
+        [{"kind": "full", "rules": [R("ra", 9), R("rb", 5), R("rc", 1)]}, {"kind": "remove", "names": ["rc", "ghost"]}],
+        [{"kind": "full", "rules": [R("ra", 9), R("rb", 5), R("rc", 1)]}, {"kind": "remove", "names": ["zz"]}],
+        [{"kind": "full", "rules": [R("ra", 9), R("rb", 5), R("rc", 1)]}, {"kind": "incr", "rules": [R("ra", 0), R("rb", 12)]}],
+        [{"kind": "full", "rules": [R("ra", 9), R("rb", 5), R("rc", 1)]}, {"kind": "incr", "rules": [R("rd", 7), R("rc", 20, "fail")]}, {"kind": "remove", "names": ["rb"]}],
+        [{"kind": "full", "rules": [R("ra", 3), R("rb", 3), R("rc", 3)]}, {"kind": "incr", "rules": [R("rb", 3, "fail")]}, {"kind": "incr", "rules": [R("re", 3), R("ra", -1)]}],
+    ]
+    for _ in range(10 if tier == "quick" else 300):
+        h = [{"kind": "full", "rules": [R(n, rng.choice(sal_pool)) for n in rng.sample(NAMES[:6], rng.randint(1, 5))]}]
+        for _ in range(rng.randint(1, 4)):
+            k = rng.choice(["incr", "incr", "remove"])
+            if k == "incr":
+                h.append({"kind": "incr", "rules": [R(n, rng.choice(sal_pool), rng.choice(["ret", "plain", "fail"])) for n in rng.sample(NAMES[:7], rng.randint(1, 3))]})
+            else:
+                h.append({"kind": "remove", "names": rng.sample(NAMES[:7] + ["ghost"], rng.randint(1, 3))})
+        hists.append(h)
+    for h in hists:
+        for b in (True, False):
+            c = base("Execute", [], b=b)
+            c["history"] = h
+            cases.append(c)
     n_rand = 200 if tier == "quick" else 5000
     pool = ENTRIES_P + diff_here * 9
     for _ in range(n_rand):
@@ -33,7 +60,7 @@ def make_cases(rng, tier, diff_here):
 
 
 RULE = ("systematic: rule sets of size 1-4 (thorough 1-5) over saliences {-2,0,0,3,7} (ties, negatives) x EVERY failing subset x both flags, through Execute and the two sorted selected variants "
-        "(names permuted); random: 200 (thorough 5000) calls with up to 7 (10) rules.")
+        "(names permuted); rule sets installed through 15 (thorough 305) histories of full / incremental (moved and tied saliences, several rules per text) / removal (incl. absent names) operations, whose installed order must be the denoted set in non-increasing current salience; random: 200 (thorough 5000) calls with up to 7 (10) rules.")
 
 
 def main(run):
